@@ -1,7 +1,9 @@
 package c07
 
 import (
+	"errors"
 	"fmt"
+	"sort"
 	"testing"
 
 	"github.com/btcsuite/btcd/btcutil"
@@ -10,6 +12,7 @@ import (
 	"github.com/btcsuite/btcd/wire"
 	"github.com/btcsuite/btcwallet/waddrmgr"
 	"github.com/btcsuite/btcwallet/wallet"
+	"github.com/btcsuite/btcwallet/wallet/txauthor"
 	"github.com/btcsuite/btcwallet/wallet/txrules"
 	"github.com/btcsuite/btcwallet/wallet/txsizes"
 	"pgregory.net/rapid"
@@ -36,7 +39,7 @@ func TestC07WalletLevel(t *testing.T) {
 			tx.AddTxIn(wire.NewTxIn(&wire.OutPoint{Hash: [32]byte{0xaa, byte(i), 7}, Index: uint32(i)}, nil, nil))
 			for k := 0; k < rapid.IntRange(1, 5).Draw(t, "outs"); k++ {
 				own := s.Book.List[rapid.IntRange(0, len(s.Book.List)-1).Draw(t, "payTo")]
-				val := int64(rapid.SampledFrom([]int{600, 1000, 3000, 10_000, 50_000, 200_000, 1_000_000}).Draw(t, "coinValue"))
+				val := int64(rapid.SampledFrom([]int{600, 1000, 3000, 5000, 7000, 8000, 10_000, 15_000, 50_000, 200_000, 1_000_000}).Draw(t, "coinValue"))
 				val += int64(rapid.IntRange(0, 999).Draw(t, "coinJitter"))
 				tx.AddTxOut(wire.NewTxOut(val, own.Script))
 			}
@@ -98,10 +101,32 @@ func TestC07WalletLevel(t *testing.T) {
 					c.Class("boundary-request")
 				}
 			}
+			// deep mode: one output sized just below the most that the coins, taken
+			// largest first, can pay at this rate - the selection has to walk past
+			// coins that do not pay for themselves to reach smaller, cheaper-to-spend
+			// ones that do
+			if rapid.IntRange(0, 3).Draw(t, "deep") == 0 {
+				dest := s.ExternalScript()
+				best := maxPayableLargest(elig, dest, rate)
+				v := best - int64(rapid.IntRange(0, 3000).Draw(t, "deepSlack"))
+				if v >= 1000 {
+					outputs = []*wire.TxOut{wire.NewTxOut(v, dest)}
+					nOut = 1
+					strategy = wallet.CoinSelectionLargest
+					c.Class("deep-request")
+				}
+			}
 			atx, err := s.F.W.CreateSimpleTx(scope, 0, outputs, 1, rate, strategy, false)
 			c.Logf("CreateSimpleTx scope=%v rate=%d outputs=%d eligible=%d/%d sat -> %v", scope, rate, nOut, len(elig), total, err)
 			if err != nil {
 				c.Class("refused")
+				var ise txauthor.InputSourceError
+				if errors.As(err, &ise) {
+					c.Class("refused:insufficient")
+					if why := refusalUnjustified(elig, outputs, rate, strategy); why != "" {
+						s.F.Violation("CreateSimpleTx reports insufficient funds although the offered coins cover the outputs plus the required fee: %s", why)
+					}
+				}
 				continue
 			}
 			tx := atx.Tx
@@ -191,4 +216,115 @@ func TestC07WalletLevel(t *testing.T) {
 			c.NonTrivial()
 		}
 	})
+}
+
+// coinsLargestFirst lists value and input kind (0 p2pkh, 1 nested, 2 p2wpkh,
+// 3 p2tr: dearest first) of the coins in descending value, ties with the
+// dearest kind first.
+func coinsLargestFirst(elig map[wire.OutPoint]*walletsim.Coin) [][2]int64 {
+	var coins [][2]int64
+	for _, co := range elig {
+		k := int64(0)
+		switch {
+		case txscript.IsPayToScriptHash(co.Own.Script):
+			k = 1
+		case txscript.IsPayToWitnessPubKeyHash(co.Own.Script):
+			k = 2
+		case txscript.IsPayToTaproot(co.Own.Script):
+			k = 3
+		}
+		coins = append(coins, [2]int64{co.Value, k})
+	}
+	sort.Slice(coins, func(i, j int) bool {
+		if coins[i][0] != coins[j][0] {
+			return coins[i][0] > coins[j][0]
+		}
+		return coins[i][1] < coins[j][1]
+	})
+	return coins
+}
+
+// maxPayableLargest is the largest single-output amount some largest-first
+// prefix of the coins pays for, fee of the worst-case estimate included.
+func maxPayableLargest(elig map[wire.OutPoint]*walletsim.Coin, dest []byte, rate btcutil.Amount) int64 {
+	probe := []*wire.TxOut{wire.NewTxOut(1000, dest)}
+	var n [4]int
+	var sum, best int64
+	for _, x := range coinsLargestFirst(elig) {
+		n[x[1]]++
+		sum += x[0]
+		est := txsizes.EstimateVirtualSize(n[0], n[3], n[2], n[1], probe, 34)
+		if v := sum - int64(txrules.FeeForSerializeSize(rate, est)); v > best {
+			best = v
+		}
+	}
+	return best
+}
+
+// refusalUnjustified decides, from the ledger's eligible coins alone, whether an
+// "insufficient funds" answer contradicts the property. It is deliberately one
+// sided: it names a set of coins the selection strategy is bound to arrive at
+// (largest first: a prefix of the coins in descending value, ties counted with
+// the dearest input type first; random: all coins that pay for themselves by a
+// margin, in any order the loop ends with all of them) whose value covers the
+// outputs plus the rate applied to the worst-case size estimate with the largest
+// change script - the very test the author applies before giving up. Empty
+// result: the refusal may be justified.
+func refusalUnjustified(elig map[wire.OutPoint]*walletsim.Coin, outputs []*wire.TxOut, rate btcutil.Amount, strategy wallet.CoinSelectionStrategy) string {
+	type cv struct {
+		v    int64
+		kind int // 0 p2pkh, 1 nested, 2 p2wpkh, 3 p2tr (dearest first)
+	}
+	upper := []int64{148, 92, 69, 58}
+	var coins []cv
+	for _, co := range elig {
+		k := 0
+		switch {
+		case txscript.IsPayToScriptHash(co.Own.Script):
+			k = 1
+		case txscript.IsPayToWitnessPubKeyHash(co.Own.Script):
+			k = 2
+		case txscript.IsPayToTaproot(co.Own.Script):
+			k = 3
+		}
+		coins = append(coins, cv{co.Value, k})
+	}
+	sort.Slice(coins, func(i, j int) bool {
+		if coins[i].v != coins[j].v {
+			return coins[i].v > coins[j].v
+		}
+		return coins[i].kind < coins[j].kind
+	})
+	var out int64
+	for _, o := range outputs {
+		out += o.Value
+	}
+	need := func(n [4]int) int64 {
+		est := txsizes.EstimateVirtualSize(n[0], n[3], n[2], n[1], outputs, 34)
+		return out + int64(txrules.FeeForSerializeSize(rate, est))
+	}
+	if strategy == wallet.CoinSelectionLargest {
+		var n [4]int
+		var sum int64
+		for i, x := range coins {
+			n[x.kind]++
+			sum += x.v
+			if sum >= need(n) {
+				return fmt.Sprintf("the %d largest of %d eligible coins are worth %d, outputs plus the fee of the worst-case estimate for them come to %d (rate %d)", i+1, len(coins), sum, need(n), rate)
+			}
+		}
+		return ""
+	}
+	var n [4]int
+	var sum int64
+	for _, x := range coins {
+		if x.v > int64(rate)*upper[x.kind]/1000+1 {
+			n[x.kind]++
+			sum += x.v
+		}
+	}
+	if sum >= need(n) {
+		return fmt.Sprintf("the %d coins that pay for themselves are worth %d together, outputs plus the fee of the worst-case estimate for all of them come to %d (rate %d)", n[0]+n[1]+n[2]+n[3], sum, need(n), rate)
+	}
+	return ""
 }
